@@ -671,6 +671,9 @@ func (w *v14Wire) endBlock(d int) {
 	if me.hdrFrames > 1 {
 		w.ev["header_blocks_with_continuation_"+dn]++
 	}
+	if n := int64(len(me.hdrBuf)); n > 0 && n%16384 == 0 {
+		w.ev["header_blocks_of_exactly_a_multiple_of_16384_octets_"+dn]++
+	}
 	if me.hdrFlags&h2ref.FlagEndStream != 0 {
 		st.ended[d] = true
 	}
